@@ -1,6 +1,8 @@
 package main
 
 import (
+	"context"
+	"encoding/json"
 	"fmt"
 	"math/rand"
 	"reflect"
@@ -16,6 +18,11 @@ import (
 	"k8s.io/apimachinery/pkg/util/validation/field"
 	"sigs.k8s.io/controller-runtime/pkg/client"
 	"sigs.k8s.io/controller-runtime/pkg/client/fake"
+	"sigs.k8s.io/controller-runtime/pkg/webhook/admission"
+	admissionv1 "k8s.io/api/admission/v1"
+	"k8s.io/apimachinery/pkg/runtime"
+	jsonpatchv5 "github.com/evanphx/json-patch/v5"
+	expwebhook "github.com/kubeflow/katib/pkg/webhook/v1beta1/experiment"
 
 	commonv1beta1 "github.com/kubeflow/katib/pkg/apis/controller/common/v1beta1"
 	experimentsv1beta1 "github.com/kubeflow/katib/pkg/apis/controller/experiments/v1beta1"
@@ -58,9 +65,27 @@ runtime:
 `}
 
 type c14env struct {
-	cl  client.Client
-	gen manifest.Generator
-	val validator.Validator
+	cl   client.Client
+	gen  manifest.Generator
+	val  validator.Validator
+	defW *expwebhook.ExperimentDefaulter
+	valW *expwebhook.ExperimentValidator
+}
+
+// applyPatch applies the JSON patch of an admission response to the raw object
+func applyPatch(raw []byte, resp admission.Response) ([]byte, error) {
+	if len(resp.Patches) == 0 {
+		return raw, nil
+	}
+	pb, err := json.Marshal(resp.Patches)
+	if err != nil {
+		return nil, err
+	}
+	patch, err := jsonpatchv5.DecodePatch(pb)
+	if err != nil {
+		return nil, err
+	}
+	return patch.Apply(raw)
 }
 
 var c14envs []*c14env
@@ -86,9 +111,11 @@ func c14Env(i int) *c14env {
 		for _, cfg := range c14Configs {
 			cm := &corev1.ConfigMap{ObjectMeta: metav1.ObjectMeta{Name: "katib-config", Namespace: "kubeflow"}, Data: map[string]string{"katib-config.yaml": cfg}}
 			tpl := &corev1.ConfigMap{ObjectMeta: metav1.ObjectMeta{Name: "templates", Namespace: "kubeflow"}, Data: map[string]string{"job.yaml": c14CMTemplate, "broken.yaml": "{{{ not yaml"}}
-			cl := fake.NewClientBuilder().WithScheme(valScheme).WithObjects(cm, tpl).Build()
+			nsObj := &corev1.Namespace{ObjectMeta: metav1.ObjectMeta{Name: "ns", Labels: map[string]string{"katib.kubeflow.org/metrics-collector-injection": "enabled"}}}
+			cl := fake.NewClientBuilder().WithScheme(valScheme).WithObjects(cm, tpl, nsObj).Build()
 			gen := manifest.New(cl)
-			c14envs = append(c14envs, &c14env{cl: cl, gen: gen, val: validator.New(gen)})
+			dec := admission.NewDecoder(valScheme)
+			c14envs = append(c14envs, &c14env{cl: cl, gen: gen, val: validator.New(gen), defW: expwebhook.NewExperimentDefaulter(cl, dec), valW: expwebhook.NewExperimentValidator(cl, dec)})
 		}
 	}
 	return c14envs[i]
@@ -638,6 +665,15 @@ func init() {
 		}
 		env := c14Env(envIdx)
 		e, tags := genExp14(rng)
+		e.TypeMeta = metav1.TypeMeta{APIVersion: "kubeflow.org/v1beta1", Kind: "Experiment"}
+		// what the webhooks see is the JSON form: normalise the generated object through it
+		raw0, merr := json.Marshal(e)
+		if merr == nil {
+			e2 := &experimentsv1beta1.Experiment{}
+			if json.Unmarshal(raw0, e2) == nil {
+				e = e2
+			}
+		}
 		s := &e.Spec
 		// ---------- model input (pre-default object)
 		tok := []string{hx(e.Name), oi32(s.MaxTrialCount), oi32(s.ParallelTrialCount), oi32(s.MaxFailedTrialCount)}
@@ -898,6 +934,55 @@ func init() {
 					tags = append(tags, "battery")
 				}
 				impl = "admitted dry=" + dry + " ## names=" + strings.Join(nm, ",") + " ptr=" + ptr + " run=" + rs
+			}
+		}
+		// ---------- the same object through the real admission handlers (JSON in, JSON patch out)
+		if merr == nil && !strings.HasPrefix(impl, "panic") {
+			wh := ""
+			func() {
+				defer func() {
+					if r := recover(); r != nil {
+						wh = "WEBHOOK=panic"
+					}
+				}()
+				req := admission.Request{AdmissionRequest: admissionv1.AdmissionRequest{Namespace: "ns", Operation: admissionv1.Create, Object: runtime.RawExtension{Raw: raw0}}}
+				r1 := env.defW.Handle(context.TODO(), req)
+				if !r1.Allowed {
+					wh = "WEBHOOK=defaulter-denied"
+					return
+				}
+				raw1, err := applyPatch(raw0, r1)
+				if err != nil {
+					wh = "WEBHOOK=patch-does-not-apply"
+					return
+				}
+				// the patched object must be the directly defaulted one
+				got := &experimentsv1beta1.Experiment{}
+				if err := json.Unmarshal(raw1, got); err != nil {
+					wh = "WEBHOOK=patched-object-unreadable"
+					return
+				}
+				dj, _ := json.Marshal(d)
+				gj, _ := json.Marshal(got)
+				if string(dj) != string(gj) {
+					wh = "WEBHOOK=defaulter-differs"
+					return
+				}
+				req2 := admission.Request{AdmissionRequest: admissionv1.AdmissionRequest{Namespace: "ns", Operation: admissionv1.Create, Object: runtime.RawExtension{Raw: raw1}}}
+				r2 := env.valW.Handle(context.TODO(), req2)
+				if r2.Allowed != strings.HasPrefix(impl, "admitted") {
+					wh = "WEBHOOK=" + map[bool]string{true: "allowed", false: "denied"}[r2.Allowed] + "-but-validator-said-otherwise"
+				}
+			}()
+			if wh != "" {
+				if i := strings.Index(impl, " ## "); i >= 0 {
+					impl = impl[:i] + " " + wh + impl[i:]
+				} else {
+					impl += " " + wh
+				}
+				tags = append(tags, wh)
+			} else {
+				tags = append(tags, "webhooks-agree")
 			}
 		}
 		triv := false
